@@ -49,23 +49,20 @@ def find (ls : List Lst) (a : Local) : Option Lst := findWith candidates ls a
 def findIdx (ls : List Lst) (a : Local) : Option Nat :=
   (find ls a).bind (fun l => ls.findIdx? (· == l))
 
-/-! the declarative side: which listeners can have accepted / may serve a connection with that local address -/
+/-! the declarative side: which listeners can have accepted a connection with that local address -/
 
 def v4wild (a : Local) : String := "0.0.0.0:" ++ a.port
 def v6wild (a : Local) : String := "[::]:" ++ a.port
 
-/-- `L` can have accepted the connection: same network and either exactly the connection's local address, or (TCP) the
-IPv4 wildcard of its port for an IPv4 connection, or the IPv6 wildcard of its port (dual-stack: IPv4 peers included) -/
+/-- `L` can have accepted the connection / may serve it: same network and either configured on exactly the connection's
+local address, or (TCP) on the IPv4 or the IPv6 wildcard of its port.  BOTH wildcards accept BOTH families: Go's
+`net.Listen("tcp", "0.0.0.0:p")` — what `listener.listen` calls — opens a dual-stack socket just like `"[::]:p"` (observed
+on every run: an IPv6 client reaches a listener configured on `0.0.0.0`), and an IPv4 peer of such a socket has an
+IPv4 local address (`127.0.0.1:p`, `To4() != nil`). -/
 def accepted (L : Lst) (a : Local) : Prop :=
-  L.network = a.network ∧ (L.addr = a.str ∨ (a.unix = false ∧ ((a.v4 = true ∧ L.addr = v4wild a) ∨ L.addr = v6wild a)))
-
-instance (L : Lst) (a : Local) : Decidable (accepted L a) := by unfold accepted; exact inferInstance
-
-/-- `L` is configured on the connection's address or on a wildcard of its port -/
-def serves (L : Lst) (a : Local) : Prop :=
   L.network = a.network ∧ (L.addr = a.str ∨ (a.unix = false ∧ (L.addr = v4wild a ∨ L.addr = v6wild a)))
 
-instance (L : Lst) (a : Local) : Decidable (serves L a) := by unfold serves; exact inferInstance
+instance (L : Lst) (a : Local) : Decidable (accepted L a) := by unfold accepted; exact inferInstance
 
 /-- the rule "one wildcard, chosen by the address family of the connection" (not MOSN's; kept for the witness) -/
 def singleWildcard : Rule := fun a => if a.unix then [a.str] else [a.str, if a.v4 then v4wild a else v6wild a]
